@@ -144,6 +144,8 @@ let c03run_main () =
   let bin = Sys.argv.(2) in
   let max_steps = int_of_string Sys.argv.(3) in
   let from = int_of_string Sys.argv.(4) and upto = int_of_string Sys.argv.(5) in
+  (* optional 6th argument "judge-all": do not stop at a READ that overwrites its own SVC (used for the known-finding shapes) *)
+  let judge_all = Array.length Sys.argv > 6 && Sys.argv.(6) = "judge-all" in
   let file = C02drv.read_file bin in
   let len = Stdlib.String.length file in
   let bytes = SL.init (max 0 (len - 4)) (fun i -> zi (Char.code (Stdlib.String.get file (i + 4)))) in
@@ -167,7 +169,7 @@ let c03run_main () =
           let in_range = pc' < 800000 && (k lsr 4 <> 5 || a' < 800000) in
           let read_safe = (match ev with Isa.Read (_, _) -> fetch_byte pc s'.Isa.mem = k | _ -> true) in
           if not in_range then fin := "left-range"
-          else if not read_safe then fin := "read-overwrites-its-svc"
+          else if not read_safe && not judge_all then fin := "read-overwrites-its-svc"
           else begin
             (* the written word: Isa.step returns the very same memory value when it does not write; when it does, the
                address is the instruction's effective address (checked by reading the new memory there; the final
